@@ -39,7 +39,7 @@ CHECKS = {
             "DESIGN.md §5 C15"),
     "C18": ("fault_enumeration",
             "derivation catalogue per decoder (byte edits, TLV rewrites, structure-preserving DER tree edits, depth-2 edits; recorded handshake flights through canned connections with framing-preserving message edits) executed under panic capture, per-call thread-CPU budget with a CPU-based hang watcher, and serial allocation sampling",
-            "For each of ~55 decoders of untrusted bytes (incl. the 16 TLS handshake message decoders, session state and ticket decryption through the verif hooks) takes valid encodings produced by the library and derives every truncation, single-byte substitutions from {00,01,7f,80,ff,b^1,b^80} (all seven in thorough), every TLV length rewritten to {0,len-1,len+1,0x80,0x84ffffffff,0x847fffffff}, universal tag swaps, BER nesting to depth 10^4 (definite, indefinite, unterminated), empty and random inputs; each call runs in a child process with recover(), a thread-CPU budget of 2 s + 1 us/byte, and a watcher that turns 20 s of CPU in one call into a verdict; allocations are sampled serially against 64*len + 8 MiB.",
+            "For each of ~55 decoders of untrusted bytes (incl. the 16 TLS handshake message decoders, session state and ticket decryption through the verif hooks) takes valid encodings produced by the library and derives every truncation, single-byte substitutions from {00,01,7f,80,ff,b^1,b^80} (all seven in thorough), every TLV length rewritten to {0,len-1,len+1,0x80,0x84ffffffff,0x847fffffff}, universal tag swaps, BER nesting to depth 10^4 and, under a 32 MiB goroutine-stack cap, 2*10^5 / 10^6 (definite, indefinite, unterminated), flat constructed values with up to 5*10^5 members, empty and random inputs; each call runs in a child process with recover(), a thread-CPU budget of 2 s + 1 us/byte, and a watcher that turns 20 s of CPU in one call into a verdict; allocations are sampled serially against 64*len + 8 MiB.",
             "Trusted: Go runtime (recover, getrusage, MemStats). Bytes encoding a password-stretching iteration count are not mutated (exempt by the property).",
             "DESIGN.md §5 C18"),
     "C10": ("exploration",
